@@ -1573,7 +1573,8 @@ _TEXT_PATH = re.compile(r"^\t\t path: (.*)$", re.M)
 _TEXT_FILE = re.compile(r"^\t\t check file: (.*)$", re.M)
 _TEXT_CHECK = re.compile(r'^Check: "([^"]+)"', re.M)
 
-FILTER_PATTERNS = ["B0", "2", "0 -> 1", "", "^0", "3$", "1 -> .* -> 4", r"\b1\b", "7|9"]
+# blanks are the only delimiters of block ids in the short notation: patterns with leading / trailing blanks are meaningful
+FILTER_PATTERNS = ["B0", "2", "0 -> 1", "", "-> 1 ", "^0", "3$", "1 -> .* -> 4", r"\b1\b", "7|9", " 1 ->", " "]
 
 
 def _c18_work(job: Tuple[str, str, str, bool]) -> Dict[str, Any]:
@@ -1779,7 +1780,7 @@ def _c18_work(job: Tuple[str, str, str, bool]) -> Dict[str, Any]:
                            if it.get("type") == "ExecutionPaths"}
             allshorts = [s for v in base_shorts.values() for s in v]
             if max((len(v) for v in base_shorts.values()), default=0) >= 2:
-                pats = list(FILTER_PATTERNS) if all_patterns else list(FILTER_PATTERNS[:4])
+                pats = list(FILTER_PATTERNS) if all_patterns else list(FILTER_PATTERNS[:5])
                 longest = max(allshorts, key=len)
                 if all_patterns:
                     pats += ["^" + re.escape(longest) + "$", re.escape(longest.split(" -> ")[-1]) + "$",
@@ -1902,8 +1903,8 @@ def exports_faithful(tier: str = "quick", seed: int = 0, known: Any = None) -> D
             "bound": f"{len(progs)} programs (gen.programs(k=2, seed={seed}) spread over all shapes + {len(_ADVERSARIAL)} adversarial layouts + "
                      f"{24 if tier == 'quick' else 240} handlers-first layouts with 11..28 blocks); "
                      f"per program: print cfg, print subroutine-cfg, print transaction-context, detect (text), detect --json -, detect with an unknown detector "
-                     f"(error envelope), and for programs where some detector reports >= 2 paths the --filter-paths patterns {FILTER_PATTERNS[:4]} "
-                     f"(every program) and {FILTER_PATTERNS[4:]} + 3 patterns derived from the longest reported notation "
+                     f"(error envelope), and for programs where some detector reports >= 2 paths the --filter-paths patterns {FILTER_PATTERNS[:5]} "
+                     f"(every program) and {FILTER_PATTERNS[5:]} + 3 patterns derived from the longest reported notation "
                      f"({'every third program' if tier == 'quick' else 'every program'}); "
                      "all runs in-process through main() with patched argv",
             "evaluations": runs, "programs": len(results), "programs_left_out_by_wall_clock_budget": left_out, "checks": checks, "exhaustive": False, "failures": failures,
